@@ -591,7 +591,13 @@ fn scan_generated(text: &str, ids: &mut Idents) {
                     if let Some(p) = r.rfind("::") {
                         let last = &r[p + 2..];
                         if last != "*" {
-                            ids.names.push((6, String::new(), last.to_string()));
+                            // `use super::lib::{A, B};`: several names imported from one module
+                            for one in last.trim_start_matches('{').trim_end_matches('}').split(',') {
+                                let one = one.trim();
+                                if !one.is_empty() {
+                                    ids.names.push((6, String::new(), one.to_string()));
+                                }
+                            }
                             // the module path of an import the generator derived from an ASN.1 module name
                             for seg in r[..p].split("::") {
                                 if seg != "super" && seg != "crate" && !seg.is_empty() {
